@@ -1,4 +1,5 @@
 """Shared workload pieces of the alignment properties (C01, C02, C08, C10, C11)."""
+import contextlib
 import itertools
 
 import numpy as np
@@ -45,6 +46,24 @@ def call_alignment(continuum, dissim, backend, kind, spy):
     else:
         res = fn(dissim)
     return res, spy.take()
+
+
+@contextlib.contextmanager
+def solver_config(spy, backend):
+    """'cbc' (nothing changed), 'glpk' (cylp not importable), 'cbcfail' (every CBC call raises SolverError),
+    'cbcfail2' / 'cbcfail3' (every 2nd / 3rd CBC call raises: an intermittent fault, e.g. in some windows of a fast alignment)."""
+    if backend == "glpk":
+        with monitors.cylp_masked():
+            yield
+    elif backend and backend.startswith("cbcfail"):
+        spy.fail_cbc = True if backend == "cbcfail" else int(backend[len("cbcfail"):])
+        spy.cbc_calls = 0
+        try:
+            yield
+        finally:
+            spy.fail_cbc = False
+    else:
+        yield
 
 
 def oracle_tables(cspec, dissim):
@@ -248,3 +267,86 @@ def near_tie_cases(rng, ks, u=8.0):
                order[2]: [[x, x + u, "a"], [40.5, 44.0, "b"]]}
         out.append({"ann": {a: ann[a] for a in names3}, "family": "near-tie"})
     return out
+
+
+def concurrent_calls(thunks, switch_interval=1e-5, barrier=True):
+    """Runs the thunks in as many user threads at once (a barrier releases them together, the interpreter's switch
+    interval is shortened so that hand-offs fall inside the library's Python code).  Returns [(result, exception)]."""
+    import sys
+    import threading
+    out = [None] * len(thunks)
+    bar = threading.Barrier(len(thunks)) if barrier else None
+
+    def run(i):
+        try:
+            if bar is not None:
+                bar.wait(timeout=60)
+            out[i] = (thunks[i](), None)
+        except BaseException as e:      # reported by the caller
+            out[i] = (None, e)
+    old = sys.getswitchinterval()
+    sys.setswitchinterval(switch_interval)
+    try:
+        ts = [threading.Thread(target=run, args=(i,), daemon=True) for i in range(len(thunks))]
+        for t in ts:
+            t.start()
+        for t in ts:
+            t.join(600)
+    finally:
+        sys.setswitchinterval(old)
+    return [o if o is not None else (None, TimeoutError("thread did not finish")) for o in out]
+
+
+CONCURRENT_DISSIMS = [{"kind": "positional", "delta": 1.0}, {"kind": "positional", "delta": 0.1},
+                      {"kind": "combined", "alpha": 1.0, "beta": 1.0, "delta": 2.0, "pos": None, "cat": None},
+                      {"kind": "absolute", "delta": 1.0},
+                      {"kind": "combined", "alpha": 3.0, "beta": 0.5, "delta": 0.5, "pos": None, "cat": None}]
+
+
+def gen_concurrent_case(rng, kind):
+    """One continuum OBJECT aligned by several user threads at once, each with another dissimilarity (so that the
+    candidate tables differ): nothing in the library may pass per-call data through the shared objects."""
+    n = rng.choice([2, 3, 3, 4])
+    cs = cases.gen_continuum(rng, n_annot=n, sizes=[rng.randint(2, 6 if n < 4 else 4) for _ in range(n)],
+                             labels=cases.LABELS_SMALL, family=rng.choice(["grid", "dense", "longoverlap", "dyadic", "mixeddur"]))
+    case = {"continuum": cs, "concurrent": kind, "dissims": rng.sample(CONCURRENT_DISSIMS, 4), "repeat": 2}
+    if kind == "fast":
+        case["window"] = rng.randint(1, 3)
+    return case
+
+
+def check_concurrent_case(ctx, case, monitor):
+    """Sequential reference first (same objects), then the same calls from concurrent threads; every concurrent result
+    must be a partition (cover) of the continuum and carry the disorder of the sequential call."""
+    _, pool = setup(ctx)
+    kind = case["concurrent"]
+    continuum = cases.build_continuum(case["continuum"])
+    dissims = [pool.get(d) for d in case["dissims"]]
+
+    def call(d):
+        if kind == "best":
+            return continuum.get_best_alignment(d)
+        if kind == "soft":
+            return continuum.get_best_soft_alignment(d)
+        return continuum.get_fast_alignment(d, case["window"])
+    try:
+        ref = [float(call(d).disorder) for d in dissims]
+    except Exception as e:
+        ctx.fail_exc(f"concurrent:{kind}:sequential-reference-raises:{type(e).__name__}", e, monitor=monitor)
+        return
+    thunks = [(lambda d=d: call(d)) for d in dissims] * int(case.get("repeat", 2))
+    results = concurrent_calls(thunks)
+    for k, (res, exc) in enumerate(results):
+        ctx.count(monitor)
+        if exc is not None:
+            ctx.fail_exc(f"concurrent:{kind}:raises:{type(exc).__name__}", exc, monitor=monitor)
+            continue
+        pr = monitors.check_partition(continuum, res, cover=(kind == "soft"))
+        if pr:
+            ctx.fail(f"concurrent:{kind}:not-a-{'cover' if kind == 'soft' else 'partition'}",
+                     {"problems": pr[:6], "thread": k, "dissim": case["dissims"][k % len(dissims)]}, monitor=monitor)
+            continue
+        if not oracles.close(float(res.disorder), ref[k % len(dissims)]):
+            ctx.fail(f"concurrent:{kind}:disorder-differs-from-the-sequential-call",
+                     {"concurrent": float(res.disorder), "sequential": ref[k % len(dissims)], "thread": k,
+                      "dissim": case["dissims"][k % len(dissims)]}, monitor=monitor)
